@@ -429,6 +429,20 @@ static int c_rtx_call (struct api_ctx* a)
 	if (l != 46) BROKEN("addup returned %ld", (long)l);
 	rv = hawk_rtx_callwithbcstrarr(x, "addup", args, 2); if (!rv) RFAIL(a);
 	hawk_rtx_refdownval(x, rv);
+	{
+		/* the three other array-of-strings entry points (each fills a value array element by element) */
+		static const hawk_uch_t uname[] = { 'a','d','d','u','p',0 };
+		static const hawk_uch_t ua1[] = { 'a','l','p','h','a',0 }, ua2[] = { '4','1',0 };
+		const hawk_uch_t* uargs[2] = { ua1, ua2 };
+		rv = hawk_rtx_callwithucstrarr(x, uname, uargs, 2); if (!rv) RFAIL(a);
+		n = hawk_rtx_valtonum(x, rv, &l, &r); hawk_rtx_refdownval(x, rv);
+		if (n <= -1) RFAIL(a);
+		if (l != 46) BROKEN("addup (ucstrarr) returned %ld", (long)l);
+		rv = hawk_rtx_callwithooucstrarr(x, HAWK_T("addup"), uargs, 2); if (!rv) RFAIL(a);
+		hawk_rtx_refdownval(x, rv);
+		rv = hawk_rtx_callwithoobcstrarr(x, HAWK_T("addup"), args, 2); if (!rv) RFAIL(a);
+		hawk_rtx_refdownval(x, rv);
+	}
 	return 0;
 }
 
